@@ -257,7 +257,8 @@ static bool upipe_rtp_pcm_unpack_handle(struct upipe *upipe, struct uref *uref,
 
     samples *= upipe_rtp_pcm_unpack->channels;
     for (int i = 0; i < samples; i++)
-        dst[i] = (src[3*i] << 24) | (src[3*i+1] << 16) | (src[3*i+2] << 8);
+        dst[i] = (int32_t)(((uint32_t)src[3*i] << 24) | (src[3*i+1] << 16) |
+                           (src[3*i+2] << 8));
 
     ubuf_sound_unmap(ubuf, 0, -1, 1);
     uref_block_unmap(uref, 0);
